@@ -547,16 +547,27 @@ func runC04(args []string) error {
 		return co.finish()
 	}
 	r := newRng(cf.seed)
-	p := c04NewPair()
-	defer p.close()
-	// initial funding
-	st := p.a.observe()
-	want := st
-	want.Bal = []int64{1000, 1000, 1000, 0, 0}
-	if err := p.setup(st, want); err != nil {
-		return err
+	var p *c04Pair
+	fresh := func() {
+		if p != nil {
+			p.close()
+		}
+		p = c04NewPair()
+		st := p.a.observe()
+		want := st
+		want.Bal = []int64{1000, 1000, 1000, 0, 0}
+		if err := p.setup(st, want); err != nil {
+			panic(err)
+		}
 	}
+	fresh()
+	defer func() { p.close() }()
+	ncase := 0
 	runOps := func(ops []*c04Node) {
+		// the in-memory store scans all of its keys on every Seek: start over on fresh chains now and then
+		if ncase++; ncase%400 == 0 {
+			fresh()
+		}
 		// top up accounts that ran low, so that transfers keep succeeding and failing in a mix
 		cur := p.a.observe()
 		top := cur
